@@ -209,6 +209,28 @@ def tlc_ok(res, what, allow_invariant=False):
     raise ToolError("TLC failed on %s (exit %s)" % (what, res.rc))
 
 
+def tlapm(module_rel, expect_min=1, timeout=900, threads=8):
+    """Runs the TLA+ proof system on spec/<module_rel>.tla (a scratch copy: tlapm writes its cache next to the file).
+    Returns the number of proved obligations; anything but `All N obligations proved` is a tool error."""
+    import shutil, tempfile
+    src = os.path.join(SPEC, module_rel + ".tla")
+    d = tempfile.mkdtemp(prefix="tlapm-", dir=WORK if os.path.isdir(WORK) else None)
+    try:
+        shutil.copy(src, d)
+        try:
+            r = subprocess.run(["tlapm", "--threads", str(threads), "--cleanfp", os.path.basename(src)], cwd=d, stdout=subprocess.PIPE, stderr=subprocess.STDOUT,
+                               text=True, timeout=timeout)
+        except subprocess.TimeoutExpired:
+            raise ToolError("tlapm timed out on %s" % module_rel)
+        m = re.search(r"All (\d+) obligations? proved", r.stdout)
+        if not m or int(m.group(1)) < expect_min:
+            sys.stderr.write(r.stdout[-3000:] + "\n")
+            raise ToolError("tlapm did not prove %s" % module_rel)
+        return int(m.group(1))
+    finally:
+        shutil.rmtree(d, ignore_errors=True)
+
+
 # --------------------------------------------------------------------------- known findings
 
 def load_findings():
